@@ -262,7 +262,7 @@ func e2eHandler(sc *e2eScenario) *connect.Handler {
 	if h, ok := e2eHandlers.Load(key); ok {
 		return h.(*connect.Handler)
 	}
-	opts := []connect.HandlerOption{connect.WithCompressMinBytes(sc.Hmin)}
+	opts := []connect.HandlerOption{connect.WithCompressMinBytes(sc.Hmin), connect.WithCodec(verifCodec{})}
 	for _, name := range sc.Hpools {
 		if name == "gzip" { // registering the built-in name again moves it in the preference order
 			opts = append(opts, connect.WithCompression(name, newGzipD, newGzipC))
@@ -276,6 +276,9 @@ func e2eHandler(sc *e2eScenario) *connect.Handler {
 		h = connect.NewUnaryHandler(e2eProc, func(_ context.Context, r *connect.Request[BV]) (*connect.Response[BV], error) {
 			st := stateOf(r.Header())
 			st.sawRequest(r.Header(), r.Spec(), st.table.ID(r.Msg.Value))
+			if st.sc.Out.Kind == "badsend" {
+				return connect.NewResponse(&BV{Value: poisonValue}), nil
+			}
 			if err := st.buildError(); err != nil {
 				return nil, err
 			}
@@ -294,6 +297,9 @@ func e2eHandler(sc *e2eScenario) *connect.Handler {
 			st.sawRequest(cs.RequestHeader(), connect.Spec{}, ids...)
 			if err := cs.Err(); err != nil {
 				return nil, err
+			}
+			if st.sc.Out.Kind == "badsend" {
+				return connect.NewResponse(&BV{Value: poisonValue}), nil
 			}
 			if err := st.buildError(); err != nil {
 				return nil, err
@@ -362,6 +368,9 @@ func (st *e2eState) respond(hdr, trl http.Header, send func(*BV) error) error {
 			return err
 		}
 	}
+	if st.sc.Out.Kind == "badsend" {
+		return send(&BV{Value: poisonValue}) // the codec fails: nothing of this message reaches the wire
+	}
 	return st.buildError()
 }
 
@@ -371,6 +380,9 @@ func e2eClientOpts(sc *e2eScenario) []connect.ClientOption {
 	opts := clientProtoOpts(sc.Proto)
 	if sc.Codec == "json" {
 		opts = append(opts, connect.WithProtoJSON())
+	}
+	if sc.Codec == "verifc" {
+		opts = append(opts, connect.WithCodec(verifCodec{}))
 	}
 	for _, name := range sc.Cacc {
 		if name == "gzip" {
@@ -387,6 +399,7 @@ func e2eClientOpts(sc *e2eScenario) []connect.ClientOption {
 }
 
 func decodeMsg(codec string, p []byte) ([]byte, bool) {
+	// (verifc is protobuf binary under another name)
 	if codec == "json" {
 		var s string
 		if err := json.Unmarshal(p, &s); err != nil {
